@@ -6,6 +6,7 @@ package main
 
 import (
 	"fmt"
+	"math/rand"
 	"os"
 	"regexp"
 	"sort"
@@ -20,12 +21,15 @@ import (
 )
 
 type c13Scenario struct {
-	Index   int       `json:"index"`
-	Flavour string    `json:"flavour"`
-	Hosts   int       `json:"hosts"`
-	Root    *roleSpec `json:"workflow"`
-	Fault   string    `json:"fault,omitempty"` // "" | unmatched-* | alias-conflict-*
-	Notes   []string  `json:"notes,omitempty"`
+	DanglingPos  string    `json:"dangling_position,omitempty"` // first | middle | last among the task's outbound channels (merged order)
+	DanglingDecl string    `json:"dangling_declared,omitempty"` // role | template | split
+	DanglingTask string    `json:"dangling_task,omitempty"`
+	Index        int       `json:"index"`
+	Flavour      string    `json:"flavour"`
+	Hosts        int       `json:"hosts"`
+	Root         *roleSpec `json:"workflow"`
+	Fault        string    `json:"fault,omitempty"` // "" | unmatched-* | alias-conflict-*
+	Notes        []string  `json:"notes,omitempty"`
 }
 
 var c13Flavours = []string{
@@ -297,18 +301,9 @@ func c13Gen(c *vlib.Ctx, idx int) c13Scenario {
 			in := ins[r.Intn(len(ins))]
 			g.Connect = append(g.Connect, chanSpec{Name: "gout", Type: "sub", Target: in.task.path + ":" + in.ch.Name})
 		}
-	case "unmatched-role":
-		last.Connect = append(last.Connect, chanSpec{Name: "lost", Type: "pull", Target: wf + ".nosuchrole:" + ins[0].ch.Name})
-		sc.Fault = "unmatched-role"
-	case "unmatched-channel":
-		last.Connect = append(last.Connect, chanSpec{Name: "lost", Type: "pull", Target: ins[0].task.path + ":nosuchchannel"})
-		sc.Fault = "unmatched-channel"
-	case "unmatched-alias":
-		last.Connect = append(last.Connect, chanSpec{Name: "lost", Type: "pull", Target: "::nosuchalias"})
-		sc.Fault = "unmatched-alias"
-	case "template-connect-without-target":
-		last.Task.Connect = append(last.Task.Connect, chanSpec{Name: "lost", Type: "pull"})
-		sc.Fault = "unmatched-empty-target"
+	case "unmatched-role", "unmatched-channel", "unmatched-alias", "template-connect-without-target":
+		kind := map[string]string{"unmatched-role": "role", "unmatched-channel": "channel", "unmatched-alias": "alias", "template-connect-without-target": "empty-target"}[fl]
+		placeDangling(&sc, r, last, ins, kind)
 	case "alias-conflict":
 		// a second task claims an alias that is already taken
 		var first *c13In
@@ -448,6 +443,13 @@ func c13Run(c *vlib.Ctx, idx int) {
 	if sc.Fault != "" {
 		c.Count("faulty_workflows", 1)
 		c.Count("faulty_"+strings.SplitN(sc.Fault, "-", 2)[0], 1)
+		if sc.DanglingPos != "" {
+			c.Count("unmatched_dangling_"+sc.DanglingPos, 1)
+			c.Count("unmatched_declared_"+sc.DanglingDecl, 1)
+			if sc.DanglingPos != "last" {
+				c.Count("unmatched_followed_by_resolvable", 1)
+			}
+		}
 		if strings.HasSuffix(sc.Fault, "same-port-different-hosts") {
 			// was the intended coincidence really produced? (ports of the ACCEPT minus the control port)
 			ta, tb := byPath[sc.Root.Name+".ta"], byPath[sc.Root.Name+".tb"]
@@ -472,7 +474,19 @@ func c13Run(c *vlib.Ctx, idx int) {
 		if cerr == nil {
 			switch {
 			case strings.HasPrefix(sc.Fault, "unmatched"):
-				viol("TARGET", "unmatched-accepted/"+strings.TrimPrefix(sc.Fault, "unmatched-"), "the environment was configured although an outbound channel's target matches no inbound channel ("+sc.Fault+")")
+				followed := "dangling-last"
+				if sc.DanglingPos != "last" {
+					followed = "dangling-followed-by-resolvable"
+				}
+				missing := "the task was not configured"
+				if args := cfgOf[sc.DanglingTask]; args != nil {
+					if a, ok := args["chans.lost.0.address"]; ok {
+						missing = "the dangling channel was given the address " + a
+					} else {
+						missing = "the task's CONFIGURE arguments silently lack chans.lost.*"
+					}
+				}
+				viol("TARGET", "unmatched-accepted/"+strings.TrimPrefix(sc.Fault, "unmatched-")+"/"+followed, fmt.Sprintf("the environment was configured although outbound channel 'lost' of %s names a target that matches no inbound channel (%s; it is the %s of the task's outbound channels, declared: %s); %s", sc.DanglingTask, sc.Fault, sc.DanglingPos, sc.DanglingDecl, missing))
 			default:
 				viol("ALIAS", "conflict-accepted/"+strings.TrimPrefix(sc.Fault, "alias-conflict-"), "the environment was configured although two different inbound channels claim the same global alias ("+sc.Fault+")")
 			}
@@ -737,4 +751,104 @@ func declLevels(tr *roleSpec, name string, inbound bool) (levels int, nearestOnA
 		levels++
 	}
 	return levels, nearest > 0
+}
+
+// placeDangling rebuilds the outbound channels of task role tr: 2-4 channels of which exactly one
+// ('lost') names a target that matches nothing, at the first, a middle or the last position of the
+// order in which the core merges them (the role's own connect list, then its ancestors', then the
+// template's), the others resolvable (role path, alias, explicit address). Declared at role level
+// only, in the task template as well (type there, target on the role), or split over the role and
+// its parent. Position and declaration style cycle with the scenario index.
+func placeDangling(sc *c13Scenario, r *rand.Rand, tr *roleSpec, ins []c13In, kind string) {
+	slot := sc.Index % len(c13Flavours)
+	cycle := sc.Index / len(c13Flavours)
+	pos := []string{"first", "middle", "last"}[(slot+cycle)%3]
+	decl := []string{"role", "template", "split"}[(slot+2*cycle)%3]
+	n := 2 + r.Intn(3)
+	if pos == "middle" && n < 3 {
+		n = 3
+	}
+	p := 0
+	switch pos {
+	case "middle":
+		p = 1 + r.Intn(n-2)
+	case "last":
+		p = n - 1
+	}
+	wf := sc.Root.Name
+	dangling := chanSpec{Name: "lost", Type: c13Types[r.Intn(4)], Transport: c13Transports[r.Intn(5)]}
+	switch kind {
+	case "role":
+		dangling.Target = wf + ".nosuchrole:" + ins[0].ch.Name
+	case "channel":
+		dangling.Target = ins[0].task.path + ":nosuchchannel"
+	case "alias":
+		dangling.Target = "::nosuchalias"
+	case "empty-target":
+		dangling.Target = ""
+	}
+	var chs []chanSpec
+	for i := 0; i < n; i++ {
+		if i == p {
+			chs = append(chs, dangling)
+			continue
+		}
+		ch := chanSpec{Name: fmt.Sprintf("ok%d", i), Type: c13Types[r.Intn(4)], Transport: c13Transports[r.Intn(5)]}
+		var withAlias []c13In
+		for _, in := range ins {
+			if in.ch.Global != "" && in.ch.Target == "" {
+				withAlias = append(withAlias, in)
+			}
+		}
+		switch k := r.Intn(3); {
+		case k == 0:
+			ch.Target = pick(r, "tcp://somehost.example:5555", "ipc:///tmp/c13-pipe", "ipc://@abstract-name")
+		case k == 1 && len(withAlias) > 0:
+			ch.Target = "::" + withAlias[r.Intn(len(withAlias))].ch.Global
+		default:
+			in := ins[r.Intn(len(ins))]
+			ch.Target = in.task.path + ":" + in.ch.Name
+		}
+		chs = append(chs, ch)
+	}
+	tr.Connect, tr.Task.Connect = nil, nil
+	tplOf := func(ch chanSpec) chanSpec { // what a template may say about an outbound channel: no target
+		return chanSpec{Name: ch.Name, Type: c13Types[r.Intn(4)], Transport: c13Transports[r.Intn(5)]}
+	}
+	switch decl {
+	case "role":
+		tr.Connect = chs
+		if kind == "empty-target" && pos == "last" && r.Intn(2) == 0 {
+			// the classic form: the template declares the channel and nobody gives it a target
+			tr.Connect = chs[:p]
+			tr.Task.Connect = []chanSpec{tplOf(dangling)}
+			decl = "template"
+		}
+	case "template":
+		// every channel is declared by the template (in the opposite order); the role supplies the targets
+		for i := n - 1; i >= 0; i-- {
+			tr.Task.Connect = append(tr.Task.Connect, tplOf(chs[i]))
+		}
+		tr.Connect = chs
+		if kind == "empty-target" && pos == "last" {
+			tr.Connect = chs[:p] // the dangling one exists in the template only
+		}
+	case "split":
+		if p < n-1 && tr.parent != nil {
+			// up to the dangling one on the role, the followers inherited from the parent role
+			tr.Connect = append([]chanSpec(nil), chs[:p+1]...)
+			tr.parent.Connect = append(tr.parent.Connect, chs[p+1:]...)
+		} else {
+			// the resolvable ones declared in template + role, the dangling one on the role only
+			for i, ch := range chs {
+				if i != p && i%2 == 0 {
+					tr.Task.Connect = append(tr.Task.Connect, tplOf(ch))
+				}
+			}
+			tr.Connect = chs
+		}
+	}
+	sc.Fault = "unmatched-" + kind
+	sc.DanglingPos, sc.DanglingDecl, sc.DanglingTask = pos, decl, tr.path
+	sc.Notes = append(sc.Notes, fmt.Sprintf("task %s has %d outbound channels; 'lost' (%s) is the %s one, declared: %s", tr.path, n, kind, pos, decl))
 }
